@@ -55,7 +55,7 @@ def addhist(res, name, cell, n=1):
     h[cell] = h.get(cell, 0) + n
 
 
-class CaseTimeout(Exception):
+class CaseTimeout(BaseException):
     pass
 
 
